@@ -628,6 +628,171 @@ impl MqttSerializer {
 } // verus!
 
 // ======================================================================================
+// 08_packets: packet structs handed to the session by the decoder, ReasonCode helpers,
+// control-packet byte layouts (spec) and the 9-byte encoders' leaf contracts
+// ======================================================================================
+verus! {
+
+pub struct ReasonData<'a> {
+    pub code: ReasonCode,
+    pub _properties: Option<Properties<'a>>,
+}
+pub struct Reason<'a> {
+    pub reason: Option<ReasonData<'a>>,
+}
+pub struct ConnAck<'a> {
+    pub session_present: bool,
+    pub reason_code: ReasonCode,
+    pub properties: Properties<'a>,
+}
+pub struct Publish<'a, P> {
+    pub topic: Utf8String<'a>,
+    pub packet_id: Option<u16>,
+    pub properties: Properties<'a>,
+    pub payload: P,
+    pub retain: Retain,
+    pub qos: QoS,
+    pub dup: bool,
+}
+pub struct PubAck<'a> {
+    pub packet_id: u16,
+    pub reason: Reason<'a>,
+}
+pub struct PubRec<'a> {
+    pub packet_id: u16,
+    pub reason: Reason<'a>,
+}
+pub struct PubRel<'a> {
+    pub packet_id: u16,
+    pub reason: Reason<'a>,
+}
+pub struct PubComp<'a> {
+    pub packet_id: u16,
+    pub reason: Reason<'a>,
+}
+pub struct SubAck<'a> {
+    pub packet_id: u16,
+    pub _properties: Properties<'a>,
+    pub codes: &'a [u8],
+}
+pub struct UnsubAck<'a> {
+    pub packet_id: u16,
+    pub _properties: Properties<'a>,
+    pub codes: &'a [u8],
+}
+pub struct Disconnect<'a> {
+    pub reason_code: Option<ReasonCode>,
+    pub properties: Option<Properties<'a>>,
+}
+pub enum ReceivedPacket<'a> {
+    ConnAck(ConnAck<'a>),
+    Publish(Publish<'a, &'a [u8]>),
+    PubAck(PubAck<'a>),
+    SubAck(SubAck<'a>),
+    UnsubAck(UnsubAck<'a>),
+    PubRel(PubRel<'a>),
+    PubRec(PubRec<'a>),
+    PubComp(PubComp<'a>),
+    Disconnect(Disconnect<'a>),
+    PingResp,
+}
+
+/// num_enum `FromPrimitive` on ReasonCode: the variant with that discriminant, `Unknown` otherwise
+pub open spec fn rc_from_u8(b: u8) -> ReasonCode {
+    if exists|r: ReasonCode| rc_u8(r) == b && r != ReasonCode::Unknown { choose|r: ReasonCode| rc_u8(r) == b && r != ReasonCode::Unknown } else { ReasonCode::Unknown }
+}
+impl From<u8> for ReasonCode {
+    #[verifier::external_body]
+    fn from(b: u8) -> (r: ReasonCode) { unimplemented!() }
+}
+impl vstd::std_specs::convert::FromSpecImpl<u8> for ReasonCode {
+    open spec fn obeys_from_spec() -> bool { true }
+    open spec fn from_spec(b: u8) -> Self { rc_from_u8(b) }
+}
+impl From<ReasonCode> for u8 {
+    #[verifier::external_body]
+    fn from(c: ReasonCode) -> (r: u8) { unimplemented!() }
+}
+impl vstd::std_specs::convert::FromSpecImpl<ReasonCode> for u8 {
+    open spec fn obeys_from_spec() -> bool { true }
+    open spec fn from_spec(c: ReasonCode) -> Self { rc_u8(c) }
+}
+impl From<&ReasonCode> for u8 {
+fn from(code: &ReasonCode) -> (r: u8)
+    ensures
+        r == rc_u8(*code),
+{
+        (*code).into()
+    }
+}
+impl vstd::std_specs::convert::FromSpecImpl<&ReasonCode> for u8 {
+    open spec fn obeys_from_spec() -> bool { true }
+    open spec fn from_spec(c: &ReasonCode) -> Self { rc_u8(*c) }
+}
+
+pub open spec fn rc_success(c: ReasonCode) -> bool { rc_u8(c) < 0x80 }
+
+impl ReasonCode {
+fn success(&self) -> (r: bool)
+    ensures
+        r == rc_success(*self),
+{
+        let value: u8 = self.into();
+        value < 0x80
+    }
+fn failed(&self) -> (r: bool)
+    ensures
+        r == !rc_success(*self),
+{
+        !self.success()
+    }
+fn as_result(&self) -> (r: Result<(), PeerError>)
+    ensures
+        r == (if rc_success(*self) { Ok::<(), PeerError>(()) } else { Err::<(), PeerError>(PeerError::Rejected(*self)) }),
+{
+        if self.success() {
+            return Ok(());
+        }
+        Err(PeerError::Rejected(*self))
+    }
+}
+
+pub open spec fn reason_of(r: Reason) -> ReasonCode {
+    match r.reason { Some(d) => d.code, None => ReasonCode::Success }
+}
+impl<'a> Reason<'a> {
+fn code(&self) -> (r: ReasonCode)
+    ensures
+        r == reason_of(*self),
+{
+        (match self.reason
+            .as_ref() { Some(data) => data.code, None => ReasonCode::Success })
+    }
+}
+pub open spec fn reason_from(code: ReasonCode) -> Reason<'static> {
+    Reason { reason: Some(ReasonData { code, _properties: None }) }
+}
+impl vstd::std_specs::convert::FromSpecImpl<ReasonCode> for Reason<'_> {
+    open spec fn obeys_from_spec() -> bool { true }
+    open spec fn from_spec(code: ReasonCode) -> Self { reason_from(code) }
+}
+impl From<ReasonCode> for Reason<'_> {
+fn from(code: ReasonCode) -> (r: Self)
+    ensures
+        r.reason matches Some(d) && d.code == code && d._properties is None,
+{
+        Self {
+            reason: Some(ReasonData {
+                code,
+                _properties: None,
+            }),
+        }
+    }
+}
+
+} // verus!
+
+// ======================================================================================
 // 10_outbound: src/mqtt_client/outbound.rs  — SendState, Outbound (all methods)
 // ======================================================================================
 verus! {
